@@ -590,6 +590,7 @@ func RunReplay(h Harness, rp *Replay, trace bool) (*simrt.Outcome, *Violation) {
 func Minimise(h Harness, seed, run int64, sc any, cfg simrt.Config, out *simrt.Outcome, v *Violation) *Replay {
 	sig := v.Signature
 	origSteps := out.Steps
+	origSc, origOut, v0 := sc, out, v
 	deadline := time.Now().Add(20 * time.Second)
 	try := func(sc any, c simrt.Config) (*simrt.Outcome, *Violation) {
 		o, vv := h.Execute(sc, c, &Stats{})
@@ -671,7 +672,16 @@ func Minimise(h Harness, seed, run int64, sc any, cfg simrt.Config, out *simrt.O
 		if v2 != nil {
 			got = v2.Signature
 		}
-		panic(&Trouble{fmt.Sprintf("replay is not deterministic: wanted %q hash %x, got %q hash %x", sig, out.Hash, got, o2.Hash)})
+		// Either the harness is nondeterministic, or the code under test carries state
+		// from run to run in a package-level variable (a shared deadline heap, a
+		// semaphore), so that what this run did depended on the runs before it and
+		// its re-execution, which those runs and the minimisation attempts have
+		// changed again, differs. The worker cannot tell; the runner can: it
+		// re-executes the unminimised run in a fresh process and, failing that, the
+		// whole range of runs in order, and believes only what reproduces there.
+		rp := MakeReplay(h, seed, run, origSc, cfg, origOut, v0, false)
+		rp.Violation.Detail += fmt.Sprintf(" [minimisation abandoned: re-executing the minimised run in this process gave %q, not %q - the run may depend on state carried over from earlier runs]", got, sig)
+		return rp
 	}
 	rp := MakeReplay(h, seed, run, sc, cfg, o2, v2, true)
 	rp.OriginalSteps = origSteps
